@@ -74,6 +74,9 @@ prop('C17', level='proof',
 
 prop('C08', level='proof', claim='wip', note='wip', explanation='wip')
 
+prop('C02', level='proof', claim='wip', note='wip', explanation='wip')
+prop('C04', level='proof', claim='wip', note='wip', explanation='wip')
+
 HOOK_COMMITS = ['019397c']
 
 NOT_APPLICABLE = {
